@@ -57,6 +57,7 @@ func streamCli(o *Out, r *rand.Rand, n int, thorough bool) {
 		{"ok", ""}, {"ok", "1 + 1"}, {"ok", "nil"},
 		{"runErr", `throw "boom"`}, {"runErr", "undefinedFunction()"}, {"runErr", "1 % 0"}, {"runErr", `x = [1]; x[5]`},
 		{"runErr", `toInt()`}, {"runErr", `keys(1)`},
+		{"exit", "os = import(\"os\")\nos.Exit(0)"}, {"exit", "os = import(\"os\")\nos.Exit(3)"},
 		{"parseErr", "x = ("}, {"parseErr", `s = "unterminated`}, {"parseErr", "if { }"}, {"parseErr", "1 +* 2"}, {"parseErr", "func("},
 	}
 	for i := 0; i < n; i++ {
@@ -71,7 +72,27 @@ func streamCli(o *Out, r *rand.Rand, n int, thorough bool) {
 		end := endings[r.Intn(len(endings))]
 		supply := []string{"dashE", "file1", "file1", "file0"}[r.Intn(4)]
 		for j := 0; j < lines; j++ {
-			switch r.Intn(5) {
+			switch r.Intn(9) {
+			case 5:
+				// the script's own top-level variables are visible to the builtins
+				fmt.Fprintf(&sb, "v%d = %d\nif defined(\"v%d\") { println(\"def\") } else { println(\"undef\") }\nprintln(defined(\"nope%d\"), defined(\"args\"))\n", j, j, j, j)
+				want.WriteString("def\nfalse true\n")
+			case 6:
+				// output through a bundled package between builtin output
+				w := words[r.Intn(len(words))]
+				fmt.Fprintf(&sb, "println(\"a%d\")\nfmt = import(\"fmt\")\nfmt.Println(%q)\nfmt.Printf(\"%%d|\", %d)\nprint(\"z\\n\")\n", j, w, j)
+				fmt.Fprintf(&want, "a%d\n%s\n%d|z\n", j, w, j)
+			case 7:
+				// a loaded file sees the loading script's variables and args
+				lib := filepath.Join(tmp, fmt.Sprintf("lib%d_%d.ank", i, j))
+				if err := os.WriteFile(lib, []byte(fmt.Sprintf("println(w%d + len(args))\nq%d = 7\n", j, j)), 0o644); err != nil {
+					panic(err)
+				}
+				fmt.Fprintf(&sb, "w%d = %d\nload(%q)\nprintln(q%d)\n", j, j*10, lib, j)
+				fmt.Fprintf(&want, "%d\n7\n", j*10+nargs)
+			case 8:
+				fmt.Fprintf(&sb, "printf(\"%%s-%%d\\n\", \"f\", %d)\n", j)
+				fmt.Fprintf(&want, "f-%d\n", j)
 			case 0:
 				w := words[r.Intn(len(words))]
 				fmt.Fprintf(&sb, "println(%q)\n", w)
@@ -104,14 +125,23 @@ func streamCli(o *Out, r *rand.Rand, n int, thorough bool) {
 			o.Sum.Skipped++
 			continue
 		}
+		if class == "exit" && supply == "file0" {
+			supply = "file1"
+		}
 		// library verdict in an equally prepared environment
 		var libErr error
-		libOut := captureStdout(func() {
-			e := env.NewEnv()
-			_ = e.Define("args", args)
-			core.Import(e)
-			_, libErr = vm.Execute(e, nil, src)
-		})
+		libOut := ""
+		if class == "exit" {
+			// the script ends the process itself (os.Exit): not run in-process; what it printed before must be there
+			libOut = want.String()
+		} else {
+			libOut = captureStdout(func() {
+				e := env.NewEnv()
+				_ = e.Define("args", args)
+				core.Import(e)
+				_, libErr = vm.Execute(e, nil, src)
+			})
+		}
 		// run the binary
 		var cmd *exec.Cmd
 		switch supply {
@@ -152,6 +182,19 @@ func streamCli(o *Out, r *rand.Rand, n int, thorough bool) {
 		}
 		executed := supply != "file0"
 		modelClass := class
+		if class == "exit" {
+			o.Sum.Evaluations++
+			o.Sum.Hist["class:exit"]++
+			wantExit := 0
+			if strings.Contains(end.src, "Exit(3)") {
+				wantExit = 3
+			}
+			if exit != wantExit || outS != want.String() {
+				o.Fail(Failure{Oracle: "cli-stdout", Key: "cli-stdout-lost-at-exit", Input: fmt.Sprintf("[%s args=%v] %q", supply, args, src),
+					Detail: fmt.Sprintf("the script printed %q and then called os.Exit(%d); the binary wrote %q and exited %d", want.String(), wantExit, outS, exit)})
+			}
+			continue
+		}
 		o.Case(fmt.Sprintf("(cli %s %s)", supply, modelClass), fmt.Sprintf("exit=%d diag=%d executed=%v", exit, diag, executed),
 			fmt.Sprintf("[%s args=%v] %s", supply, args, src), lines > 0 || class != "ok")
 		o.Sum.Hist["supply:"+supply]++
